@@ -82,6 +82,11 @@ def run(ctx):
         if i >= n_cases and hv[i - n_cases][0] == 'ratio':
             ratios[0] = hv[i - n_cases][1]
             ctx.hist('source-hint/T over dt')
+            if (i - n_cases) % 2 == 0:
+                # a dyadic time step, so that the quotient T/dt the code forms is EXACTLY the hinted value (a test `T/dt == c` or `< c` next to it
+                # is decided the way the constant says, not by the rounding of r*dt/dt)
+                dt = rng.choice([2.0 ** -7, 2.0 ** -6, 2.0 ** -5])
+                kind, a = record(rng, n, dt)
         periods = [r * dt for r in ratios]
         if kind == 'resonant':
             T0 = periods[0]
